@@ -146,3 +146,68 @@ Definition run_live (pagesize : Z) (ex : list bytes) (rl : rollup) (ms : list ma
         else jnone);
        (* which hypotheses hold, for the harness's diagnosis *)
        JL [ jbool wf; jbool (wf_rollup rl); jbool (consistent rl ms); jbool (rounded rl ms); jbool (uniform_figs ms) ] ].
+
+(* ---- big listings (1-4 MiB), generated here from (n, seed, shift) so that case terms stay small;
+   props/C13.py writes the same bytes (checked through length and a checksum) *)
+Fixpoint dec_digits (fuel : nat) (n : Z) (acc : bytes) : bytes :=
+  match fuel with
+  | O => acc
+  | S k => let acc' := (48 + n mod 10) :: acc in if n <? 10 then acc' else dec_digits k (n / 10) acc'
+  end.
+Definition dec_of (n : Z) : bytes := dec_digits 40 n [].
+Definition hexdz (d : Z) : Z := if d <? 10 then 48 + d else 87 + d.
+Fixpoint hex_digits (w : nat) (n : Z) (acc : bytes) : bytes :=
+  match w with O => acc | S k => hex_digits k (n / 16) (hexdz (n mod 16) :: acc) end.
+(* "%-16s%8lu kB": the name padded to 16 columns, the value right-aligned in 8 *)
+Definition kpad (name v : bytes) : nat := (16 - (length name + 1) + (8 - length v) - 1)%nat.
+Definition bfig (f : fig) (n : Z) : kline := let v := dec_of n in LFig f (kpad (fig_name f) v) v.
+Definition bother (name : bytes) (n : Z) (kb : bool) : kline := let v := dec_of n in LOther name (kpad name v) v kb.
+Definition big_lines (i seed : Z) : list kline :=
+  let g (a m : Z) := ((i * a + seed) mod m) * 4 in
+  [bfig FSize (g 7 2000 + 4); bother (bs "KernelPageSize") 4 true; bother (bs "MMUPageSize") 4 true;
+   bfig FRss (g 5 1000); bfig FPss (g 3 977); bother (bs "Pss_Dirty") (g 11 50) true;
+   bfig FSharedClean (g 13 300); bfig FSharedDirty (g 17 10);
+   bfig FPrivateClean (g 19 400); bfig FPrivateDirty (g 23 333);
+   bfig FReferenced (g 5 1000); bfig FAnonymous (g 23 333);
+   bother (bs "KSM") 0 true; bother (bs "LazyFree") (g 29 7) true; bother (bs "AnonHugePages") 0 true;
+   bother (bs "ShmemPmdMapped") 0 true; bother (bs "FilePmdMapped") 0 true; bother (bs "Shared_Hugetlb") 0 true;
+   bfig FPrivateHugetlb (if i mod 97 =? 0 then 2048 else 0); bfig FSwap (g 31 41);
+   bother (bs "SwapPss") (g 37 13) true; bother (bs "Locked") 0 true; bother (bs "THPeligible") (i mod 2) false;
+   LFlags [bs "rd"; bs "mr"; bs "mw"; bs "me"]].
+Definition big_mapping (seed : Z) (shift : nat) (i : Z) : mapping :=
+  let start := 139637976727552 + i * 1048576 in
+  let k := i mod 3 in
+  {| m_addr := hex_digits 12 start [] ++ 45 :: hex_digits 12 (start + 4096) [];
+     m_perms := if k =? 0 then bs "r-xp" else if k =? 1 then bs "rw-p" else bs "r--s";
+     m_offset := hex_digits 8 (i mod 16 * 4096) [];
+     m_dev := if k =? 1 then bs "00:00" else bs "fe:00";
+     m_inode := if k =? 1 then bs "0" else dec_of (1000 + i);
+     m_pad := if i =? 0 then shift else 2%nat;
+     m_path := if k =? 0 then bs "/usr/lib/libbig.so." ++ dec_of (i mod 7)
+               else if k =? 1 then [] else bs "/srv/data file:" ++ dec_of (i mod 5);
+     m_deleted := false;
+     m_lines := big_lines i seed |}.
+Fixpoint zseq (n : nat) (i : Z) : list Z := match n with O => [] | S k => i :: zseq k (i + 1) end.
+Definition big_ms (n : nat) (seed : Z) (shift : nat) : list mapping := map (big_mapping seed shift) (zseq n 0).
+(* order-sensitive checksum of a byte string (Adler-style, no modulus: cheap under vm_compute) *)
+Definition cksum (l : bytes) : Z * Z := fold_left (fun '(a, b) c => let a' := a + c in (a', b + a')) l (1, 0).
+Definition sum_nums (f : mapping -> Z) (ms : list mapping) : Z := fold_left (fun a m => a + f m) ms 0.
+
+(* with_model = also run the model on the printed bytes (costly for the largest files; the
+   theorems C13_smaps_sums / C13_full_info_smaps say it equals the spec for every length) *)
+Definition run_big (pagesize : Z) (n : nat) (seed : Z) (shift : nat) (r : statm) (with_model : bool) : jv :=
+  let ms := big_ms n seed shift in
+  let smaps := k_smaps ms in
+  let '(uss, pss, swap) := spec_sums ms in
+  let ck := cksum smaps in
+  JL [ jz (Z.of_nat (length smaps)); jz (fst ck); jz (snd ck);
+       (if with_model
+        then jv_outcome jv_zs (memory_full_info Alive pagesize false FENOENT (FContent smaps) (FContent (k_statm r)))
+        else jnone);
+       (if forallb wf_kernel0 ms && wf_statm r && uniform_figs ms
+        then JL [ JC "Val" [jv_zs (spec_full pagesize r ms)];
+                  (* what the rows of memory_maps(grouped=False) must add up to: private clean + dirty, pss, swap, count *)
+                  jv_zs [sum_nums (fun m => kb m FPrivateClean + kb m FPrivateDirty) ms * 1024; pss; swap; Z.of_nat (length ms)];
+                  jv_zs [sum_nums (fun m => kb m FPrivateHugetlb) ms] ]
+        else jnone);
+       JB (k_statm r) ].
